@@ -100,7 +100,13 @@ fn payload_len_c01(r: &mut Rng) -> usize {
 /// giant inbound payloads: L = k*(2^24-1)+d with explicit read boundaries around every packet
 /// header and fragment boundary
 pub fn gen_giant_inbound(r: &mut Rng, seq: u8) -> Plan {
-    let k = match r.weighted(&[55, 30, 15]) {
+    gen_giant_inbound_opts(r, seq, false)
+}
+
+/// `text_only`: the giant command is a QUERY or PREPARE (its text must reach the right callback
+/// verbatim), with two or three full packets more often than one
+pub fn gen_giant_inbound_opts(r: &mut Rng, seq: u8, text_only: bool) -> Plan {
+    let k = match r.weighted(if text_only { &[25, 45, 30] } else { &[55, 30, 15] }) {
         0 => 1u64,
         1 => 2,
         _ => 3,
@@ -108,18 +114,31 @@ pub fn gen_giant_inbound(r: &mut Rng, seq: u8) -> Plan {
     let d = r.irange(-3, 3);
     let len = ((k * U24) as i64 + d) as u32;
     let mut cmds = Vec::new();
-    match r.below(3) {
+    match if text_only { 0 } else { r.below(3) } {
         0 => {
             // the payload is command byte + text: text length = len - 1
-            cmds.push(Cmd {
-                seq,
-                kind: CmdKind::Query(Blob::Gen {
-                    len: len - 1,
-                    salt: r.next() as u32,
-                    ascii: true,
-                }),
-                act: Act::Program(simple_ok_program()),
-            });
+            let text = Blob::Gen {
+                len: len - 1,
+                salt: r.next() as u32,
+                ascii: true,
+            };
+            if text_only && r.coin() {
+                cmds.push(Cmd {
+                    seq,
+                    kind: CmdKind::Prepare(text),
+                    act: Act::Prepare(PrepAct::Reply {
+                        id: 11,
+                        params: vec![],
+                        cols: vec![],
+                    }),
+                });
+            } else {
+                cmds.push(Cmd {
+                    seq,
+                    kind: CmdKind::Query(text),
+                    act: Act::Program(simple_ok_program()),
+                });
+            }
         }
         1 => {
             cmds.push(Cmd {
@@ -542,7 +561,7 @@ fn gen_c02(r: &mut Rng, t: Tier, job: u64) -> Plan {
     if job < if t == Tier::Quick { 6 } else { 150 } {
         // multi-packet commands (one, two or three full packets) must reach the right callback
         // verbatim too
-        return gen_giant_inbound(r, 0);
+        return gen_giant_inbound_opts(r, 0, true);
     }
     let mut o = ConvOpts::std();
     o.max_cmds = 40;
